@@ -208,7 +208,7 @@ def run(tier):
     from .. import isa, enc
     pool = isa.gen_mem(False, rnd, per_class=60 if not full else 600) + isa.gen_imm(rnd, False) + rnd.sample(isa.gen_int_regs(), 1500 if not full else 20000)
     pool += isa.gen_vec_regs(corners_only=True, rnd=rnd, frac=0.0) + isa.gen_far(rnd) + [c for c in isa.gen_branch(rnd, 8) if c["d"] % 4 == 0]
-    texts = sorted(set(c["text"] for c in pool))
+    texts = sorted(set(c["text"] for c in pool) | set(isa.long_lines(rnd, full, 1500)))  # incl. the longest things the library emits
     if not full:
         texts = rnd.sample(texts, min(len(texts), 12000))
     cases, meta = [], []
